@@ -341,6 +341,16 @@ def directed_scenarios(seed):
             out.append({"seed": f"{seed}:dirR:{a}:{b}:{len(out)}", "n_random_merges": 0, "n_concurrent": 1,
                         "objects": [{"template": a, "port": 8899, "seed": f"{seed}:rA{len(out)}", "calls": calls_a, "comm": ca},
                                     {"template": b, "port": 8899, "seed": f"{seed}:rB{len(out)}", "calls": calls_b, "comm": cb}]})
+    # both objects write (or one reads, the other writes) the SAME value to the same-named setting of their own inverter
+    for a, b in (("DT", "DT"), ("DT", "DTu"), ("ET205", "ET205"), ("ET205", "ET745"), ("ESv1", "ESv1"), ("ESv2", "ESv2"), ("DT", "ET205")):
+        for ca, cb in (([["write_setting", "grid_export_limit", 37]], [["write_setting", "grid_export_limit", 37], ["read_setting", "grid_export_limit"]]),
+                       ([["read_setting", "grid_export_limit"]], [["write_setting", "grid_export_limit", 55], ["write_setting", "grid_export_limit", 55]]),
+                       ([["set_grid_export_limit", 41]], [["set_grid_export_limit", 41], ["get_grid_export_limit"]])):
+            if a.startswith("ES") and ca[0][0] != "set_grid_export_limit":
+                continue
+            out.append({"seed": f"{seed}:same:{a}:{b}:{len(out)}", "n_random_merges": 0, "n_concurrent": 1,
+                        "objects": [{"template": a, "port": 8899, "seed": f"{seed}:sA{len(out)}", "calls": ca},
+                                    {"template": b, "port": 8899, "seed": f"{seed}:sB{len(out)}", "calls": cb}]})
     for a, b in (("ET745", "ET205u"), ("ESv2", "ET205u"), ("ET205u", "ET745"), ("ET745", "ET205g"), ("ET745", "ET205"), ("ET205", "ET745"), ("ESv2", "ESv2g"), ("ET745", "ETv1"), ("ESv2", "ET205g"),
                  ("ET205g", "ET745"), ("ESv1", "ESv1"), ("ET205", "ET205")):
         for ca in ([ec], [["read_setting", "eco_mode_1"]], [["read_setting", "eco_mode_1"], ec]):
